@@ -64,6 +64,18 @@ func c11Contexts() []c11Ctx {
 			return gen.MultiHash([]gen.Key{{Name: "k"}, {Name: "k", Quoted: true}, {Name: "j"}}, []*gen.Expr{a(), h, a()})
 		}},
 		{"[□, □]", func(h *gen.Expr) *gen.Expr { return gen.MultiList(h, h) }},
+		// the hole twice under one operator (nothing may be decided from "both operands are the same expression")
+		{"□ == □", func(h *gen.Expr) *gen.Expr { return gen.Cmp("==", h, h) }}, {"□ != □", func(h *gen.Expr) *gen.Expr { return gen.Cmp("!=", h, h) }},
+		{"□ <= □", func(h *gen.Expr) *gen.Expr { return gen.Cmp("<=", h, h) }}, {"□ || □", func(h *gen.Expr) *gen.Expr { return gen.Or(h, h) }}, {"□ && □", func(h *gen.Expr) *gen.Expr { return gen.And(h, h) }},
+		// the hole as the argument of functions that accept more than the hole's own function does
+		{"length(□)", func(h *gen.Expr) *gen.Expr { return gen.Func("length", h) }}, {"type(□)", func(h *gen.Expr) *gen.Expr { return gen.Func("type", h) }},
+		{"to_string(□)", func(h *gen.Expr) *gen.Expr { return gen.Func("to_string", h) }}, {"length(keys(□))", func(h *gen.Expr) *gen.Expr { return gen.Func("length", gen.Func("keys", h)) }},
+		{"x[?□] | [0]", func(h *gen.Expr) *gen.Expr {
+			return gen.Pipe(gen.Chain(x(), gen.StFilter(h)), gen.Chain(nil, gen.StIndex(0)))
+		}},
+		{"x[*].[□] | [0]", func(h *gen.Expr) *gen.Expr {
+			return gen.Pipe(gen.Chain(x(), gen.StListStar(), gen.StMultiList(h)), gen.Chain(nil, gen.StIndex(0)))
+		}},
 		// the hole on the right of a dot whose left side is null / missing / an out-of-range element (only a
 		// function call or a multi-select may stand there: other holes are wrapped in a multi-select list)
 		{"missing.□", func(h *gen.Expr) *gen.Expr { return gen.Chain(gen.Field("missing"), dotRHS(h)) }},
@@ -99,80 +111,18 @@ func c11Errors() []struct {
 		{"error inside an expref body", gen.Func("map", gen.ExpRef(gen.Func("abs", gen.Raw("s"))), gen.LitJSON("[1]"))},
 		{"error inside a filter condition", gen.Chain(gen.LitJSON("[1]"), gen.StFilter(gen.Func("abs", gen.Raw("s"))))},
 		{"variadic invalid-type", gen.Func("merge", gen.LitJSON("{}"), gen.LitJSON("1"))},
+		{"expression reference where a value is required (any)", gen.Func("to_array", gen.ExpRef(gen.Field("a")))},
+		{"expression reference where a value is required (any, second argument)", gen.Func("contains", gen.LitJSON("[1]"), gen.ExpRef(gen.Field("a")))},
+		{"inner call rejects what the outer call would accept", gen.Func("length", gen.Func("keys", gen.Raw("str")))},
+		{"inner call rejects an array the outer call would accept", gen.Func("length", gen.Func("values", gen.LitJSON("[1,2]")))},
 	}
 }
 
-func c11(r *mon.Run) {
-	r.Rule = "E = one representative per error kind and origin (invalid type, invalid arity, unknown function, zero slice step, by-expression key error, error inside an expref body, error inside a filter condition, ill-typed variadic argument) placed in every single-hole context of the grammar (42 contexts, incl. a multi-select hash that repeats a key: every operator side, every projection kind as left side and as right-hand side / condition, function arguments, expression-reference bodies, multi-select members), " +
-		"composed to depth 1 and 2 (3 in thorough) and evaluated on 5 documents that make the hole evaluated or legitimately skipped (left of || true-like, projection over [] / over a non-array, filter never true). plus 460 expressions in which only some elements of a projection / map / sort_by / max_by raise the error (first, middle, last, none), with an index, slice, pipe or function applied to the projection. Oracle: the model evaluates, so 'error expected' is computed. Non-trivial = distinct (context path, error kind, document) with both classes (error expected / legitimately hidden) counted."
-	r.Exhaustive = true
-	r.Floor = 1000
-	r.Assumptions = []string{"which operands are 'legitimately not evaluated' is what the reference evaluator does: right side of a short-circuited || / &&, right-hand side or condition of a projection over zero elements or over a left side of the wrong type"}
-	cxs := c11Contexts()
-	errs := c11Errors()
-	ds := []interface{}{
-		docs.J(`{"a":1,"x":[{"a":1},{"a":2}],"o":{"p":{"a":1},"q":{"a":2}}}`),
-		docs.J(`{"a":null,"x":[],"o":{}}`),
-		docs.J(`{"a":0,"x":"str","o":[1]}`),
-		docs.J(`{"a":"","x":[{"a":false},{"a":null}],"o":{"p":null}}`),
-		docs.J(`null`),
-	}
-	C, E, D := len(cxs), len(errs), len(ds)
-	depth := tierPick(r, 2, 3)
-	total := 0
-	offs := []int{0}
-	p := 1
-	for d := 1; d <= depth; d++ {
-		p *= C
-		total += p * E * D
-		offs = append(offs, total)
-	}
-	decode := func(i int) (*gen.Expr, interface{}, string, string) {
-		d := 1
-		for i >= offs[d] {
-			d++
-		}
-		o := i - offs[d-1]
-		doc := ds[o%D]
-		o /= D
-		er := errs[o%E]
-		o /= E
-		tree := er.e
-		path := ""
-		for k := 0; k < d; k++ {
-			c := cxs[o%C]
-			o /= C
-			tree = c.f(tree)
-			path = c.name + " ∘ " + path
-		}
-		return tree, doc, path, er.name
-	}
-	w := mon.Workload{Name: "error-in-context", N: total, Batch: 4000,
-		Describe: func(i int) string { tr, d, _, _ := decode(i); return gen.Spell(tr) + " on " + ref.Canon(d) },
-		Do: func(i int, t *mon.Tally) {
-			tree, doc, path, ek := decode(i)
-			expr := gen.Spell(tree)
-			cx := &caseCtx{r, t, "error-in-context", i}
-			var res ref.Result
-			if i%3 == 0 {
-				res, _, _ = cx.runBoth(tree, expr, doc)
-			} else {
-				res, _, _ = cx.runOne(tree, expr, doc)
-			}
-			t.NontrivialDistinct(1)
-			if isErr(res) {
-				t.Count("hole evaluated: error expected")
-				t.Set("error kinds propagated", ek)
-			} else {
-				t.Count("hole legitimately not evaluated: value expected")
-			}
-			if len(path) < 40 {
-				t.Set("depth-1 contexts", path)
-			}
-			if i%20011 == 0 {
-				t.Sample(map[string]interface{}{"expression": expr, "document": doc, "context": path, "error": ek, "expected": expectedString(res)})
-			}
-		}}
+// c11LateCases: expressions in which only some elements of a projection / map / sort_by / max_by raise an
+// error (first, middle, last, none; also far into 40-element arrays), with an index, slice, pipe or function
+// applied to the projection - and the documents they run on. Shared with C10 (the failing call is a function
+// type error).
+func c11LateCases() ([]*gen.Expr, []interface{}) {
 	// errors that only SOME elements raise: an early exit, a first-match shortcut or a per-element
 	// cache can swallow the error of a later (or earlier) element
 	var lateTrees []*gen.Expr
@@ -242,6 +192,81 @@ func c11(r *mon.Run) {
 		}
 		lateDocs = append(lateDocs, map[string]interface{}{"x": arr, "o": map[string]interface{}{"p": arr[0], "q": arr[17], "r": arr[39]}, "y": []interface{}{arr[:20], arr[20:]}, "k": float64(7)})
 	}
+	return lateTrees, lateDocs
+}
+
+func c11(r *mon.Run) {
+	r.Rule = "E = one representative per error kind and origin (invalid type, invalid arity, unknown function, zero slice step, by-expression key error, error inside an expref body, error inside a filter condition, ill-typed variadic argument) placed in every single-hole context of the grammar (53 contexts, incl. a multi-select hash that repeats a key: every operator side, every projection kind as left side and as right-hand side / condition, function arguments, expression-reference bodies, multi-select members), " +
+		"composed to depth 1 and 2 (3 in thorough) and evaluated on 5 documents that make the hole evaluated or legitimately skipped (left of || true-like, projection over [] / over a non-array, filter never true). plus 460 expressions in which only some elements of a projection / map / sort_by / max_by raise the error (first, middle, last, none), with an index, slice, pipe or function applied to the projection. Oracle: the model evaluates, so 'error expected' is computed. Non-trivial = distinct (context path, error kind, document) with both classes (error expected / legitimately hidden) counted."
+	r.Exhaustive = true
+	r.Floor = 1000
+	r.Assumptions = []string{"which operands are 'legitimately not evaluated' is what the reference evaluator does: right side of a short-circuited || / &&, right-hand side or condition of a projection over zero elements or over a left side of the wrong type"}
+	cxs := c11Contexts()
+	errs := c11Errors()
+	ds := []interface{}{
+		docs.J(`{"a":1,"x":[{"a":1},{"a":2}],"o":{"p":{"a":1},"q":{"a":2}}}`),
+		docs.J(`{"a":null,"x":[],"o":{}}`),
+		docs.J(`{"a":0,"x":"str","o":[1]}`),
+		docs.J(`{"a":"","x":[{"a":false},{"a":null}],"o":{"p":null}}`),
+		docs.J(`null`),
+	}
+	C, E, D := len(cxs), len(errs), len(ds)
+	depth := tierPick(r, 2, 3)
+	total := 0
+	offs := []int{0}
+	p := 1
+	for d := 1; d <= depth; d++ {
+		p *= C
+		total += p * E * D
+		offs = append(offs, total)
+	}
+	decode := func(i int) (*gen.Expr, interface{}, string, string) {
+		d := 1
+		for i >= offs[d] {
+			d++
+		}
+		o := i - offs[d-1]
+		doc := ds[o%D]
+		o /= D
+		er := errs[o%E]
+		o /= E
+		tree := er.e
+		path := ""
+		for k := 0; k < d; k++ {
+			c := cxs[o%C]
+			o /= C
+			tree = c.f(tree)
+			path = c.name + " ∘ " + path
+		}
+		return tree, doc, path, er.name
+	}
+	w := mon.Workload{Name: "error-in-context", N: total, Batch: 4000,
+		Describe: func(i int) string { tr, d, _, _ := decode(i); return gen.Spell(tr) + " on " + ref.Canon(d) },
+		Do: func(i int, t *mon.Tally) {
+			tree, doc, path, ek := decode(i)
+			expr := gen.Spell(tree)
+			cx := &caseCtx{r, t, "error-in-context", i}
+			var res ref.Result
+			if i%3 == 0 {
+				res, _, _ = cx.runBoth(tree, expr, doc)
+			} else {
+				res, _, _ = cx.runOne(tree, expr, doc)
+			}
+			t.NontrivialDistinct(1)
+			if isErr(res) {
+				t.Count("hole evaluated: error expected")
+				t.Set("error kinds propagated", ek)
+			} else {
+				t.Count("hole legitimately not evaluated: value expected")
+			}
+			if len(path) < 40 {
+				t.Set("depth-1 contexts", path)
+			}
+			if i%20011 == 0 {
+				t.Sample(map[string]interface{}{"expression": expr, "document": doc, "context": path, "error": ek, "expected": expectedString(res)})
+			}
+		}}
+	lateTrees, lateDocs := c11LateCases()
 	LD := len(lateDocs)
 	// the same documents with Go-typed slices ([]map[string]interface{}, [][]map[string]interface{}): the
 	// reflection twins of the projection loops must propagate the same errors
